@@ -68,13 +68,21 @@ FORBIDDEN = re.compile(r"\b(Admitted|admit|Axiom|Axioms|Parameter|Parameters|Con
 
 
 def hygiene():
-    """No Admitted/Axiom/... anywhere in the development (Variable/Hypothesis are allowed
-    only inside Sections; we use none at all)."""
+    """No Admitted/Axiom/... anywhere in the development.  Variable / Hypothesis declare an axiom only OUTSIDE a section: inside a `Section X. ... End X.`
+    block they are ordinary abstraction (discharged at `End`) and are allowed there (coq/Gen/GenReLib.v uses two); everything else is forbidden everywhere."""
     bad = []
     for f in sorted(COQ.rglob("*.v")):
         txt = re.sub(r"\(\*.*?\*\)", "", f.read_text(), flags=re.S)
+        open_sections = []
         for i, line in enumerate(txt.split("\n"), 1):
-            if FORBIDDEN.search(line):
+            ms = re.match(r"\s*Section\s+(\w+)\s*\.", line)
+            if ms:
+                open_sections.append(ms.group(1))
+            me = re.match(r"\s*End\s+(\w+)\s*\.", line)
+            if me and open_sections and open_sections[-1] == me.group(1):
+                open_sections.pop()
+            mf = FORBIDDEN.search(line)
+            if mf and not (open_sections and mf.group(1) in ("Variable", "Hypothesis") and not FORBIDDEN.search(line.replace(mf.group(1), "", 1))):
                 bad.append("%s:%d: %s" % (f.relative_to(VERIF), i, line.strip()))
     return bad
 
@@ -375,6 +383,20 @@ def gen_tie_h11():
                           pre=[("sig2coq.py", "GeneratedSig.v", "GenSigP.v"), ("http2coq.py", "GeneratedHttp.v", "GenHttpP.v")], lib=["GenH11Lib.v"])
 
 
+RE_THEOREMS = ["gen_re_blank_eq", "gen_re_blank_end_unique", "gen_re_version_eq", "gen_re_version_match_unique", "gen_re_version_group_participates", "gen_re_header_eq",
+               "gen_re_header_one_byte"]
+
+
+def gen_tie_re():
+    """The three regular expressions the code uses (read.py HTTP_VERSION_PATTERN, signatures/http.py _HEADER_PATTERN, h11's blank_line_regex) are read from the CURRENT sources,
+    parsed by CPython's own re._parser and emitted as terms of a small generic regex AST (translate/re2coq.py -> Gen/GeneratedRe.v); coq/Gen/GenReP.v proves, against the generic
+    relational semantics of Gen/GenReLib.v, that the hand recognisers the other ties bind them to (gen_re_http_version, hsplit, find_blank_end) are exactly what .match / .split /
+    .search denote, and that the match is unique in each case."""
+    return gen_tie_single("re", "re2coq.py", "GeneratedRe.v", ["GenReP.v"], RE_THEOREMS,
+                          ["Model/Text.v", "Model/SigParse.v", "Proofs/HttpReadP.v", "../translate/sig2coq.py", "../translate/http2coq.py", "Gen/GenH11Lib.v"],
+                          pre=[("sig2coq.py", "GeneratedSig.v", "GenSigP.v"), ("http2coq.py", "GeneratedHttp.v", "GenHttpP.v")], lib=["GenH11Lib.v", "GenReLib.v"])
+
+
 EFF_THEOREMS = ["exec_call_frame", "gen_fingerprint_calls_write_nothing", "gen_fingerprint_calls_only_copy_their_input", "gen_http_buffer_only_converted_to_bytes",
                 "gen_impersonate_tcp_writes_only_rng", "gen_impersonate_mtu_writes_only_its_packet_variant", "gen_impersonate_mtu_writes_only_its_packet",
                 "gen_database_readers_write_nothing", "gen_database_load_writes_only_self", "gen_no_global_object_written", "gen_call_summary_total",
@@ -547,6 +569,8 @@ def run_check(prop, tier, replay=None):
                 ties.append(("Gen/GenSigP.v:", "Gen/GenSigP.v", " && translate/sig2coq.py /repo coq/Gen/GeneratedSig.v && coqc Gen/GeneratedSig.v Gen/GenSigP.v Gen/GenSigC.v", gen_tie_sig()))
             if "httpx" in spec:
                 ties.append(("Gen/GenHttpP.v:", "Gen/GenHttpP.v", " && translate/http2coq.py /repo coq/Gen/GeneratedHttp.v && coqc Gen/GeneratedHttp.v Gen/GenHttpP.v Gen/GenHttpC.v", gen_tie_httpx()))
+            if "re" in spec:
+                ties.append(("Gen/GenReP.v:", "Gen/GenReP.v", " && translate/re2coq.py /repo coq/Gen/GeneratedRe.v && coqc Gen/GenReLib.v Gen/GeneratedRe.v Gen/GenReP.v", gen_tie_re()))
             if "h11" in spec:
                 ties.append(("Gen/GenH11P.v:", "Gen/GenH11P.v", " && translate/h112coq.py /repo coq/Gen/GeneratedH11.v && coqc Gen/GenH11Lib.v Gen/GeneratedH11.v Gen/GenH11P.v", gen_tie_h11()))
             if "eff" in spec:
@@ -576,7 +600,7 @@ def run_check(prop, tier, replay=None):
             if x in GEN_GROUPS:
                 last.append(GEN_GROUPS[x][1][-1])
         last += {"imp": ["GenImpC.v"], "sig": ["GenSigC.v"], "file": ["GenDbC.v"], "httpx": ["GenHttpC.v"]}.get("imp" if "imp" in spec else "", [])
-        for k, f in (("sig", "GenSigC.v"), ("file", "GenDbC.v"), ("httpx", "GenHttpC.v"), ("eff", "GenEffP.v"), ("h11", "GenH11P.v")):
+        for k, f in (("sig", "GenSigC.v"), ("file", "GenDbC.v"), ("httpx", "GenHttpC.v"), ("eff", "GenEffP.v"), ("h11", "GenH11P.v"), ("re", "GenReP.v")):
             if k in spec:
                 last.append(f)
         FORCE_TIE[0] = True
@@ -584,7 +608,7 @@ def run_check(prop, tier, replay=None):
         fcntl.flock(lock, fcntl.LOCK_EX)          # one thorough tie re-check at a time (the inner lock is taken per tie)
         try:
             groups = [x for x in spec if x in GEN_GROUPS]
-            redo = ([gen_tie(groups)] if groups else []) + [f() for k, f in (("imp", gen_tie_imp), ("sig", gen_tie_sig), ("file", gen_tie_file), ("httpx", gen_tie_httpx), ("eff", gen_tie_eff), ("h11", gen_tie_h11)) if k in spec]
+            redo = ([gen_tie(groups)] if groups else []) + [f() for k, f in (("imp", gen_tie_imp), ("sig", gen_tie_sig), ("file", gen_tie_file), ("httpx", gen_tie_httpx), ("eff", gen_tie_eff), ("h11", gen_tie_h11), ("re", gen_tie_re)) if k in spec]
             chk = []
             if all(r["ok"] for r in redo):
                 for f in last:
@@ -788,6 +812,11 @@ def run_check(prop, tier, replay=None):
                       "LITERALLY from the source and refused if different: the regex ^HTTP/1\\.(?P<version>\\d)$ (as Python applies it: `$` also matches before one trailing LF), "
                       "the regex ,(?![^\\[]*\\]) = the model's hsplit, h11's maybe_extract_lines = the model's extract_lines, bytes.split(None, 2) / strip / lower / partition = "
                       "Model/Text.v + Model/HttpRead.v functions; Gen/GenHttpP.v + GenHttpC.v re-checked on every run")
+        if "re" in spec:
+            tb.append("translate/re2coq.py + Gen/GenReLib.v: the three regular expressions are read from the current sources and parsed by CPython's own re._parser; TRUSTED is the generic relational "
+                      "semantics of the regex constructs they use (literal, class, \\d as ASCII digits, negated literal, concatenation, alternation, ?, *, negative lookahead, ^ and $ with Python's "
+                      "bytes / MULTILINE rules, groups; about 60 lines of definitions in Gen/GenReLib.v; backtracking priority is not modelled - uniqueness of the match is proved for each pattern instead); "
+                      "with it the bindings of http2coq / h112coq (gen_re_http_version, hsplit, find_blank_end) are theorems (Gen/GenReP.v), no longer assumptions")
         if "h11" in spec:
             tb.append("translator translate/h112coq.py (h11/_receivebuffer.py AS INSTALLED + pyp0f's copy_buffer -> functions over an explicit buffer state): its reading of the subset (slices, "
                       "del, in-place edits of list elements as a map, the assert as an explicit outcome proved unreachable); ASSUMED: the regular expression b'\\n\\r?\\n' (pattern and flag read "
